@@ -63,7 +63,7 @@ UnparseArgs(args, red) ==
 Fail == [ok |-> FALSE, t |-> Num("0"), i |-> 0]
 Ok(t, i) == [ok |-> TRUE, t |-> t, i |-> i]
 Tok(ts, i) == IF i <= Len(ts) THEN ts[i] ELSE "<eof>"
-IsNumeral(s) == s \in {"0", "1", "2", "3", "7", "10", "0.5", "2.5", "0.25", "100", "30", "45", "90"}
+IsNumeral(s) == s \in {"0", "1", "2", "3", "7", "10", "0.5", "2.5", "0.25", "100", "30", "45", "90", "65536", "32768", "0.0004", "3000"}
 IsVar(s) == s \in {"$a", "$b"}
 IsStr(s) == s \in {"'a,b'", "'a b  c'", "'  a '", "','", "'-'", "'a'", "'b'", "'a.b.c'", "'.'"}
 Fixed1 == {"abs", "ceil", "floor", "fract", "sign", "sqrt", "log", "exp", "sin", "cos", "tan", "asin", "acos", "atan", "not"}
@@ -175,10 +175,18 @@ SpecialTrees ==
     SpecialLeaves
     \cup {Bin(o, l, r) : o \in CmpOps \cup AddOps \cup {"*", "/"}, l \in SpecialLeaves \cup {Num("1"), Num("0")}, r \in SpecialLeaves \cup {Num("1")}}
     \cup {Call(f, <<l, r>>) : f \in CmpOps, l \in SpecialLeaves \cup {Num("1")}, r \in SpecialLeaves \cup {Num("1")}}
+\* whole numbers around the 32-bit boundary (2^31 = 65536 * 32768) and values below the
+\* three decimals numbers are printed with: still numbers, and non-zero as conditions
+EdgeTrees ==
+    {Bin("*", Num("65536"), Num("32768")), Neg(Bin("*", Num("65536"), Num("32768"))), Bin("*", Num("65536"), Num("65536")),
+     Bin("-", Bin("*", Num("65536"), Num("32768")), Num("1")), Bin("+", Bin("*", Num("65536"), Num("32768")), Num("0.5")),
+     Num("0.0004"), Neg(Num("0.0004")), Bin("/", Num("1"), Num("3000")), Bin("-", Num("0.0004"), Num("0.0004")),
+     Bin("*", Num("0.0004"), Num("3000")), Call("not", <<Num("0.0004")>>), Call("if", <<Num("0.0004"), Num("1"), Num("2")>>),
+     Bin("and", Num("0.0004"), Num("1")), Bin("or", Num("0.0004"), Num("0"))}
 NestedCalls == {Bin("+", Call("max", <<Num("1"), Call("abs", <<Neg(Var("a"))>>)>>), Bin("*", Num("2"), Call("min", <<x, Num("3")>>))) : x \in ArgPool}
 
 GoodCases ==
-    {[fam |-> "good", tree |-> t, red |-> r, toks |-> Unparse(t, 1, r)] : t \in D1 \cup D2 \cup CallTrees \cup NestedCalls \cup ListTrees \cup StrTrees \cup SpecialTrees, r \in BOOLEAN}
+    {[fam |-> "good", tree |-> t, red |-> r, toks |-> Unparse(t, 1, r)] : t \in D1 \cup D2 \cup CallTrees \cup NestedCalls \cup ListTrees \cup StrTrees \cup SpecialTrees \cup EdgeTrees, r \in BOOLEAN}
 
 \* malformed: derived from good token strings
 Drop(ts, i) == SubSeq(ts, 1, i - 1) \o SubSeq(ts, i + 1, Len(ts))
